@@ -1,5 +1,6 @@
 mod core;
 mod engines;
+mod execs;
 mod refmodel;
 
 use crate::core::*;
@@ -26,7 +27,12 @@ fn main() {
                 _ => usage(),
             };
             let code = engines::run(&args[2], tier);
+            execs::cleanup_work_root();
             std::process::exit(code);
+        }
+        "crlf-size" => {
+            let pairs: usize = args.get(2).and_then(|s| s.parse().ok()).unwrap_or(1000);
+            std::process::exit(engines::vc_io::crlf_size_child(pairs));
         }
         "replay" => {
             if args.len() < 3 {
@@ -34,7 +40,9 @@ fn main() {
             }
             let text = std::fs::read_to_string(&args[2]).unwrap_or_else(|e| machinery_failure(&format!("cannot read {}: {e}", args[2])));
             let replay: Replay = serde_json::from_str(&text).unwrap_or_else(|e| machinery_failure(&format!("bad replay file: {e}")));
-            std::process::exit(engines::replay(&replay));
+            let code = engines::replay(&replay);
+            execs::cleanup_work_root();
+            std::process::exit(code);
         }
         _ => usage(),
     }
